@@ -64,7 +64,7 @@ def call_id(call, cls):
     d = dotted(f)
     name = d[-1]
     recv = d[-2] if len(d) >= 2 else ''
-    if name == 'send' and recv == 'socket':
+    if name == 'send' and recv in ('socket', 'sock'):
         return 'KSend'
     if name == 'write_to_socket':
         return 'KWriteToSocket'
